@@ -15,9 +15,7 @@ Inductive effect :=
   | EGet (name : str) (key : Z)                                  (* VariableFetcher.Get *)
   | ECall (name : str) (fast : bool) (args : list value) (r : res value).  (* one operator application *)
 
-Inductive out := OVal (v : value) | OErr (e : err) | OOD.   (* OOD: outside the domain of C01 *)
-
-Definition of_res (r : res value) : out := match r with Ok v => OVal v | Err e => OErr e end.
+Definition can_be_last (t : tree) : bool := match t with TIf _ _ _ => false | _ => true end.
 Definition pre {A} (tr : list effect) (x : list effect * A) : list effect * A := (tr ++ fst x, snd x).
 
 (* and is decided by false, or by true *)
@@ -44,68 +42,66 @@ Section Sem.
     end.
 
   (* fast operator: both leaves are fetched, then the operator is applied *)
-  Definition sem_fast (name : str) (a b : tree) : list effect * out :=
+  Definition sem_fast (name : str) (a b : tree) : list effect * res value :=
     match leaf_val a with
-    | (tr1, Err e) => (tr1, OErr e)
+    | (tr1, Err e) => (tr1, Err e)
     | (tr1, Ok va) =>
       match leaf_val b with
-      | (tr2, Err e) => (tr1 ++ tr2, OErr e)
+      | (tr2, Err e) => (tr1 ++ tr2, Err e)
       | (tr2, Ok vb) =>
         let r := apply_op name [va; vb] in
-        (tr1 ++ tr2 ++ [ECall name true [va; vb] r], of_res r)
+        (tr1 ++ tr2 ++ [ECall name true [va; vb] r], r)
       end
     end.
 
-  Fixpoint sem (t : tree) : list effect * out :=
+  (* what the value v of an operand of an operator of kind k does: Some v' = it is the operator's result
+     (a deciding boolean, or — for the last of two or more operands, unless that operand is an `if` — any
+     boolean: the engine then does not apply the operator, whose result would be that same boolean when all
+     operands are booleans); None = it becomes an argument *)
+  Definition operand_result (k : option bool) (lastc : bool) (v : value) : bool :=
+    match k, v with
+    | Some d, VBool b => Bool.eqb b d || lastc
+    | _, _ => false
+    end.
+
+  Fixpoint sem (t : tree) : list effect * res value :=
     match t with
-    | TConst v => ([], OVal v)
-    | TVar n k => ([EGet n k], of_res (fetch n k))
+    | TConst v => ([], Ok v)
+    | TVar n k => ([EGet n k], fetch n k)
     | TOp name fast cs =>
       match fast_shape fast cs, cs with
       | true, [a; b] => sem_fast name a b
       | _, _ =>
-        (fix args (cs : list tree) (acc : list value) : list effect * out :=
+        (fix args (cs : list tree) (acc : list value) : list effect * res value :=
            match cs with
-           | [] => let r := apply_op name (rev acc) in ([ECall name false (rev acc) r], of_res r)
+           | [] => let r := apply_op name (rev acc) in ([ECall name false (rev acc) r], r)
            | c :: cs' =>
              match sem c with
-             | (tr, OVal v) =>
-               match op_kind name with
-               | Some d =>
-                 match v with
-                 | VBool b => if Bool.eqb b d then (tr, OVal v) else pre tr (args cs' (v :: acc))
-                 | _ => (tr, OOD)
-                 end
-               | None => pre tr (args cs' (v :: acc))
-               end
-             | (tr, r) => (tr, r)
+             | (tr, Ok v) =>
+               let lastc := match cs' with [] => can_be_last c && (2 <=? lenZ cs + lenZ acc) | _ => false end in
+               if operand_result (op_kind name) lastc v then (tr, Ok v) else pre tr (args cs' (v :: acc))
+             | (tr, Err e) => (tr, Err e)
              end
            end) cs []
       end
     | TIf c t f =>
       match sem c with
-      | (tr, OVal (VBool true)) => pre tr (sem t)
-      | (tr, OVal (VBool false)) => pre tr (sem f)
-      | (tr, OVal _) => (tr, OErr ECondNotBool)
-      | (tr, r) => (tr, r)
+      | (tr, Ok (VBool true)) => pre tr (sem t)
+      | (tr, Ok (VBool false)) => pre tr (sem f)
+      | (tr, Ok _) => (tr, Err ECondNotBool)
+      | (tr, Err e) => (tr, Err e)
       end
     end.
 
-  Fixpoint sem_args (name : str) (cs : list tree) (acc : list value) : list effect * out :=
+  Fixpoint sem_args (name : str) (cs : list tree) (acc : list value) : list effect * res value :=
     match cs with
-    | [] => let r := apply_op name (rev acc) in ([ECall name false (rev acc) r], of_res r)
+    | [] => let r := apply_op name (rev acc) in ([ECall name false (rev acc) r], r)
     | c :: cs' =>
       match sem c with
-      | (tr, OVal v) =>
-        match op_kind name with
-        | Some d =>
-          match v with
-          | VBool b => if Bool.eqb b d then (tr, OVal v) else pre tr (sem_args name cs' (v :: acc))
-          | _ => (tr, OOD)
-          end
-        | None => pre tr (sem_args name cs' (v :: acc))
-        end
-      | (tr, r) => (tr, r)
+      | (tr, Ok v) =>
+        let lastc := match cs' with [] => can_be_last c && (2 <=? lenZ cs + lenZ acc) | _ => false end in
+        if operand_result (op_kind name) lastc v then (tr, Ok v) else pre tr (sem_args name cs' (v :: acc))
+      | (tr, Err e) => (tr, Err e)
       end
     end.
 
